@@ -52,29 +52,51 @@ type agg struct {
 // history runs Size, Encode, Size, Info, Encode, EncodeSW on one aggregate and checks C02.
 // optimize: trun optimisation is on, so Size() before the first Encode may legitimately differ.
 func history(a agg, witness string, optimize bool) []byte {
+	return historyOrder(a, witness, optimize, false)
+}
+
+// encW / encS: one encode through an io.Writer / through a FixedSliceWriter of exactly Size() bytes
+func encW(a agg) ([]byte, error) {
+	var b bytes.Buffer
+	err := a.encode(&b)
+	return b.Bytes(), err
+}
+
+func encS(a agg) ([]byte, error) {
+	sw := bits.NewFixedSliceWriter(int(a.size()))
+	err := a.encsw(sw)
+	return sw.Bytes(), err
+}
+
+// historyOrder: swFirst makes EncodeSW the FIRST encode of the structure (and Encode the later ones)
+func historyOrder(a agg, witness string, optimize bool, swFirst bool) []byte {
 	evals++
+	first, second, nameFirst, nameSecond := encW, encS, "Encode", "EncodeSW"
+	if swFirst && a.encsw != nil {
+		first, second, nameFirst, nameSecond = encS, encW, "EncodeSW", "Encode"
+	}
 	var s0, s1 uint64
-	var b1, b2 bytes.Buffer
+	var b1, b2 []byte
 	var e1, e2 error
 	p := hx.Try(func() {
 		s0 = a.size()
-		e1 = a.encode(&b1)
+		b1, e1 = first(a)
 		s1 = a.size()
 	})
 	if p != "" {
-		fail(a.name, "panic", witness, "Size/Encode panics: "+p)
+		fail(a.name, "panic", witness, "Size/"+nameFirst+" panics: "+p)
 		return nil
 	}
 	if e1 != nil {
 		return nil // the property is conditional on Encode reporting success
 	}
-	if uint64(b1.Len()) != s1 {
-		fail(a.name, "size-vs-bytes", witness, fmt.Sprintf("Encode wrote %d bytes, Size() afterwards = %d", b1.Len(), s1))
+	if uint64(len(b1)) != s1 {
+		fail(a.name, "size-vs-bytes", witness, fmt.Sprintf("%s wrote %d bytes, Size() afterwards = %d", nameFirst, len(b1), s1))
 	}
 	if !optimize && s0 != s1 {
-		fail(a.name, "size-before-vs-after", witness, fmt.Sprintf("Size() before Encode %d, afterwards %d (no optimisation)", s0, s1))
+		fail(a.name, "size-before-vs-after", witness, fmt.Sprintf("Size() before %s %d, afterwards %d (no optimisation)", nameFirst, s0, s1))
 	}
-	if _, ok := bx.Scan(b1.Bytes(), 0, b1.Len(), 0); !ok {
+	if _, ok := bx.Scan(b1, 0, len(b1), 0); !ok {
 		fail(a.name, "output-does-not-tile", witness, "the size fields of the written boxes do not tile the output")
 	}
 	p = hx.Try(func() {
@@ -82,30 +104,26 @@ func history(a agg, witness string, optimize bool) []byte {
 		if a.info != nil {
 			_ = a.info(&ib)
 		}
-		e2 = a.encode(&b2)
+		b2, e2 = first(a)
 	})
 	if p != "" {
-		fail(a.name, "panic", witness, "Info/second Encode panics: "+p)
-		return b1.Bytes()
+		fail(a.name, "panic", witness, "Info/second "+nameFirst+" panics: "+p)
+		return b1
 	}
-	if e2 != nil || !bytes.Equal(b1.Bytes(), b2.Bytes()) {
-		fail(a.name, "encode-twice-differs", witness, fmt.Sprintf("second Encode (after Info) gives %d bytes / err=%v, first gave %d", b2.Len(), e2, b1.Len()))
+	if e2 != nil || !bytes.Equal(b1, b2) {
+		fail(a.name, "encode-twice-differs", witness, fmt.Sprintf("second %s (after Info) gives %d bytes / err=%v, first gave %d", nameFirst, len(b2), e2, len(b1)))
 	}
 	if a.encsw != nil {
 		var b3 []byte
 		var e3 error
-		p = hx.Try(func() {
-			sw := bits.NewFixedSliceWriter(int(a.size()))
-			e3 = a.encsw(sw)
-			b3 = sw.Bytes()
-		})
+		p = hx.Try(func() { b3, e3 = second(a) })
 		if p != "" {
-			fail(a.name, "panic", witness, "EncodeSW panics: "+p)
-		} else if e3 != nil || !bytes.Equal(b1.Bytes(), b3) {
-			fail(a.name, "encode-vs-encodesw", witness, fmt.Sprintf("EncodeSW gives %d bytes / err=%v, Encode gave %d", len(b3), e3, b1.Len()))
+			fail(a.name, "panic", witness, nameSecond+" panics: "+p)
+		} else if e3 != nil || !bytes.Equal(b1, b3) {
+			fail(a.name, "encode-vs-encodesw", witness, fmt.Sprintf("%s gives %d bytes / err=%v, %s gave %d", nameSecond, len(b3), e3, nameFirst, len(b1)))
 		}
 	}
-	return b1.Bytes()
+	return b1
 }
 
 func fileAgg(f *mp4.File, name string) agg {
